@@ -43,13 +43,13 @@ var c09Bad = []func(name string) string{
 }
 
 // plant inserts k malformed lines below the first heading; returns the new text and the (1-based position, raw line) list in file order.
-func plant(r *rand.Rand, text string, k int) (string, [][2]string) {
+func plant(r *rand.Rand, text string, k int, cc byte, prefixes ...string) (string, [][2]string) {
 	crlf := strings.Contains(text, "\r\n")
 	lines := strings.Split(text, "\n")
 	first := -1
 	for i, ln := range lines {
 		l := strings.TrimRight(ln, "\r")
-		if l != "" && l[0] != ' ' && l[0] != '\t' && l[0] != '#' && l[0] != '-' {
+		if l != "" && l[0] != ' ' && l[0] != '\t' && l[0] != cc && l[0] != '-' {
 			first = i
 			break
 		}
@@ -58,7 +58,11 @@ func plant(r *rand.Rand, text string, k int) (string, [][2]string) {
 		return text, nil
 	}
 	for j := 0; j < k; j++ {
-		raw := c09Bad[r.Intn(len(c09Bad))](fmt.Sprintf("bad%dq", j))
+		pfx := ""
+		if len(prefixes) > 0 {
+			pfx = prefixes[r.Intn(len(prefixes))]
+		}
+		raw := c09Bad[r.Intn(len(c09Bad))](pfx + fmt.Sprintf("bad%dq", j))
 		pos := first + 1 + r.Intn(len(lines)-first)
 		if pos == len(lines) && !strings.HasSuffix(text, "\n") {
 			// the file has no final line terminator: appending is fine, the line before gets one
@@ -105,22 +109,40 @@ func runC09(c *core.Ctx) {
 		srv := pool.Servers[wk]
 		r := c.Rng("case", i)
 		layout := layouts[r.Intn(len(layouts))]
-		w := newWorld(r, worldOpts{Exact: true, Hostile: true, Notes: true, Layout: layout, MinDays: 1})
+		w := newWorld(r, worldOpts{Exact: true, Hostile: true, Notes: true, Layout: layout, MinDays: 1, AltComment: true})
 		k := r.Intn(6)
 		inLog := r.Intn(2) == 0
 		book, log := w.BookText, w.LogText
 		var planted [][2]string
 		target := "food.yaml"
+		// under another comment character '#' may begin a malformed name, and so may the two-byte UTF-8 form
+		// of a comment character above 127 (the comment character is a byte)
+		var pfx []string
+		cc := byte('#')
+		if w.Conf != "" {
+			pfx = []string{"", "#"}
+			var ccn int
+			fmt.Sscanf(w.Conf, "[ParserConfig]\nCommentChar=%d", &ccn)
+			cc = byte(ccn)
+			if ccn >= 0x80 {
+				pfx = append(pfx, string(rune(ccn)), string(rune(ccn)))
+			}
+			c.Count("files_under_another_comment_character", 1)
+		}
 		if inLog {
-			log, planted = plant(r, log, k)
+			log, planted = plant(r, log, k, cc, pfx...)
 			target = "log.yaml"
 		} else {
-			book, planted = plant(r, book, k)
+			book, planted = plant(r, book, k, cc, pfx...)
 		}
 		k = len(planted)
 		files := map[string]string{"food.yaml": book, "log.yaml": log}
-		srv.Write(files)
 		pre := []string{"--no-color", "-d", "food.yaml", "-l", "log.yaml", "--today", gen.Date{Y: 2021, M: 2, D: 1}.Format(layout)}
+		if w.Conf != "" {
+			files["hr.conf"] = w.Conf
+			pre = append([]string{"--config", "hr.conf"}, pre...)
+		}
+		srv.Write(files)
 		if layout != "2006/01/02" {
 			pre = append(pre, "--date-format", layout)
 		}
